@@ -195,9 +195,16 @@ func (e *Error) getIndicator(line string) string {
 		uw-- // Decrement for place for '^'
 	}
 
-	// Count width of spaces before '^'
-	sw := runewidth.StringWidth(line[:start])
-	return fmt.Sprintf("%s^%s", strings.Repeat(" ", sw), strings.Repeat("~", uw))
+	// Fill the place before '^' with spaces of the same width. Tabs are kept since their width depends on where
+	// they stand and on the terminal. The same tabs in the line above and in this line are rendered equally.
+	var b strings.Builder
+	for i, s := range strings.Split(line[:start], "\t") {
+		if i > 0 {
+			b.WriteByte('\t')
+		}
+		b.WriteString(strings.Repeat(" ", runewidth.StringWidth(s)))
+	}
+	return fmt.Sprintf("%s^%s", b.String(), strings.Repeat("~", uw))
 }
 
 // ByErrorPosition is predicate for sort.Interface. It sorts errors slice by file path, line, and
